@@ -622,6 +622,24 @@ class Analysis:
                 states = nxt
             if retd:
                 continue
+            if blk.term == "switch" and not retd:
+                c = blk.cond_node()
+                for s1 in states:
+                    for v, s2 in (self.eval(f, c, s1) if c is not None else []):
+                        cases = [sc for sc in blk.succs if isinstance(sc.get("case"), dict) and sc.get("to") is not None]
+                        for sc in cases:
+                            s3 = s2.copy()
+                            s3.cons.append(("eq", lsub(v, lconst(sc["case"].get("v", 0)))))
+                            if s3.feasible():
+                                work.append((sc["to"], s3, bid))
+                        for sc in blk.succs:
+                            if not isinstance(sc.get("case"), dict) and sc.get("to") is not None:
+                                s3 = s2.copy()
+                                for cc in cases:
+                                    s3.ne.append(lsub(v, lconst(cc["case"].get("v", 0))))
+                                if s3.feasible():
+                                    work.append((sc["to"], s3, bid))
+                continue
             if cond_states is None and blk.cond_expr is not None and len(blk.succs) == 2:
                 cond_states = ([], [])
                 for s1 in states:
